@@ -1237,6 +1237,7 @@ def correspondence(ctx, hs: list[dict], results: list[dict], limit: int) -> None
         return
     # the decidable side condition scc_stable of the positive theorem, evaluated on every compared step
     st_out = ctx.eval_cases("side", COQ_HEADER, [c["term"].replace("case ", "stab ", 1) for c in cases], per_file=120)
+    side_ok: dict[tuple, bool] = {}
     if st_out is not None:
         names = ["scc_stable(F11)", "probe_fresh(F6)", "kind_stable(F7)", "implicit_stable(F9)"]
         for cse, x in zip(cases, st_out):
@@ -1246,6 +1247,7 @@ def correspondence(ctx, hs: list[dict], results: list[dict], limit: int) -> None
             for nm_, v in zip(names, vals):
                 ctx.add(f"side_condition_{nm_}_{v}")
             bad_side = [nm_ for nm_, v in zip(names, vals) if v == "false"]
+            side_ok[(cse["idx"], cse["cfg"], cse["k"])] = not bad_side and len(vals) == 4
             if (cse["idx"], cse["cfg"], cse["k"]) in diverging:
                 ctx.add("diverging_steps_with_a_false_side_condition" if bad_side else "diverging_steps_with_all_side_conditions_true")
     # cache_is_function_of_inputs: the records a warm run leaves = the records the cold run of the same step leaves
@@ -1255,6 +1257,11 @@ def correspondence(ctx, hs: list[dict], results: list[dict], limit: int) -> None
         for rec in r["steps"]:
             w, c = rec["warm"], rec["cold"]
             if (r["idx"], r["cfg"], rec["k"]) in diverging or not w.get("entries") or not c.get("entries"):
+                continue
+            if not side_ok.get((r["idx"], r["cfg"], rec["k"]), False):
+                # outside the hypothesis of cache_is_function_of_inputs (a decidable side condition is false on this step,
+                # e.g. an ignored `from pkg import sub` whose target appeared: F6 changes the cached interface silently)
+                ctx.add("cache_record_checks_skipped_side_condition_false_or_step_not_modelled")
                 continue
             for m, we in w["entries"].items():
                 ce = c["entries"].get(m)
